@@ -149,6 +149,65 @@ def check_integration(kind, dtstamp, lastack, snooze, other_moz, ack):
     return out, text
 
 
+ABS_EVENT = """BEGIN:VEVENT
+UID:1
+DTSTAMP:{dtstamp}
+DTSTART:20240501T120000Z
+BEGIN:VALARM
+TRIGGER;VALUE=DATE-TIME{tzid}:{trigger}
+ACTION:DISPLAY
+END:VALARM
+END:VEVENT
+"""
+
+
+def absolute_trigger_cases():
+    """an ABSOLUTE trigger written floating / in UTC / in a zone, with and without a local time zone: the instant the decision uses is
+    computed here from the text (floating = wall time in the local zone), not read back from the library"""
+    wall = datetime(2024, 6, 1, 12, 30)
+    for form in ("floating", "utc", "zoned"):
+        for local in (None, "Europe/Berlin", "America/New_York", "Asia/Tokyo"):
+            for delta_h in (-9, -3, -1, 0, 1, 3, 9):
+                yield form, local, delta_h, wall
+
+
+def check_absolute(form, local, delta_h, wall):
+    import icalendar
+    from zoneinfo import ZoneInfo
+    if form == "floating":
+        tzid, text = "", wall.strftime("%Y%m%dT%H%M%S")
+        instant = None if local is None else wall.replace(tzinfo=ZoneInfo(local))
+    elif form == "utc":
+        tzid, text = "", wall.strftime("%Y%m%dT%H%M%SZ")
+        instant = wall.replace(tzinfo=timezone.utc)
+    else:
+        tzid, text = ";TZID=Europe/Vienna", wall.strftime("%Y%m%dT%H%M%S")
+        instant = wall.replace(tzinfo=ZoneInfo("Europe/Vienna"))
+    ref = instant if instant is not None else wall.replace(tzinfo=timezone.utc)
+    dtstamp = (ref + timedelta(hours=delta_h)).astimezone(timezone.utc)
+    c = icalendar.Component.from_ical(ABS_EVENT.format(dtstamp=fmt(dtstamp), tzid=tzid, trigger=text).replace("\n", "\r\n"))
+    al = c.alarms
+    if local is not None:
+        al.set_local_timezone(local)
+    out = []
+    times = al.times
+    if len(times) != 1:
+        return [("absolute", f"{len(times)} alarm times for one absolute alarm")]
+    at = times[0]
+    if instant is None:
+        want = ("err", "LocalTimezoneMissing")          # a floating trigger cannot be compared with the acknowledgement
+    else:
+        want = ("ok", instant > dtstamp)
+    got = observe(at.is_active)
+    if got != want:
+        out.append(("absolute", f"absolute trigger {text}{tzid or ''} (local zone {local}), acknowledged at {dtstamp}: is_active {got!r}, statement {want!r}"))
+    if instant is not None:
+        tr = observe(lambda: at.trigger)
+        if tr[0] != "ok" or tr[1].tzinfo is None or tr[1] != instant or tr[1].utcoffset() != instant.utcoffset():
+            out.append(("absolute", f"absolute trigger {text}{tzid or ''} (local zone {local}): reported trigger {tr!r}, the text denotes {instant!r}"))
+    return out
+
+
 def monotonic_cases(n):
     ts = instants(n)
     opt = [None] + ts
@@ -180,6 +239,11 @@ def run(b, tier, seed):
                 res, text = check_integration(*args)
                 for name, msg in res:
                     fails.setdefault(name + "int", {"witness": {"integration": [repr(a) for a in args]}, "detail": f"{text!r}: {msg}", "kind": name})
+            for args in absolute_trigger_cases():
+                cases += 1
+                distinct.add(args)
+                for name, msg in check_absolute(*args):
+                    fails.setdefault(name + args[0], {"witness": {"absolute": [repr(a) for a in args]}, "detail": msg, "kind": name})
             from icalendar import Alarm
             from icalendar.alarms import AlarmTime
             for trig, snz, a1, a2 in monotonic_cases(n):
